@@ -293,7 +293,7 @@ theorem pathLoop_keys (T : Tables) (hT : PunctOK T) (hm : MarkOK T) (hp : ParenO
         simp only [hch, Bool.false_eq_true, if_false, htok]
         have hsplit := split_mark (k, m) hk
         rw [hbk] at hsplit
-        simp only [hsplit]
+        simp only [splitMark, hsplit]
         rw [scan_restK T hT hm (b :: k') e ss hrest]
         rw [ih f (.ident k m (b :: k') :: ops) (us ++ [46] ++ (b :: k')) hrest (by simp at hF; omega)]
         simp [keyParts, restK, Seg.part, Seg.text, hbk, List.append_assoc]
